@@ -1040,7 +1040,13 @@ struct Cx<'a> {
 }
 
 fn message(tag: &str, pos: usize) -> String {
-    format!("wfv19<{tag}:{pos}>")
+    // some messages are long (2 KiB, 20 KiB, 70 KiB): the text must still come back whole
+    match pos % 11 {
+        4 => format!("wfv19<{tag}:{pos}:{}>", "m".repeat(2_000)),
+        7 => format!("wfv19<{tag}:{pos}:{}>", "n".repeat(20_000)),
+        9 => format!("wfv19<{tag}:{pos}:{}>", "o".repeat(70_000)),
+        _ => format!("wfv19<{tag}:{pos}>"),
+    }
 }
 
 fn value(tag: &str, pos: usize) -> u64 {
